@@ -11,3 +11,5 @@ impl Value {
   #[verifier::external_body] pub fn is_obj_kind(&self, kind: ObjectKind) -> (r: bool) ensures r == (v_kind(*self) == ValueKind::Obj && o_kind(v_obj(*self)) == kind) { unimplemented!() }
 }
 impl Obj { #[verifier::external_body] pub fn kind(&self) -> (r: ObjectKind) ensures r == o_kind(*self) { unimplemented!() } }
+/// the builder a native's signature constant is (its parameter list is read by the natargs generator from the source text)
+pub struct SignatureBuilder { pub arity: Arity }
